@@ -250,6 +250,41 @@ def check(ctx):
             init_ok = isinstance(v, Poly) and v == (Poly.sym(f"{e.recv.name}.default_work_amount") - Poly.sym(f"{e.recv.name}.default_progress") * Poly.sym(f"{e.recv.name}.default_work_amount"))
             if not (prev_ok or init_ok or "_record_list[" in txt):
                 ctx.violation(con, e.loc, f"inserted remaining work `{txt[:80]}` is neither the previous entry nor the initial amount")
+    # ID records: an inserted step repeats the previous entry; where the entry inserted for step 0 is None, later inserts must take
+    # the previous entry *as it is* (slicing / copying / iterating a None entry raises half-way through the edit)
+    import re as _re
+    groups = {}
+    for kind, cls, lp, e, _ in results["insert_absence_time_list"]:
+        if kind == "value" and len(e.args) >= 2 and e.attr.endswith(("_id_record", "_id_record_list")):
+            groups.setdefault((cls, e.attr), []).append(e)
+    def classify(v, node, attr):
+        """-> set of kinds among none / empty / prev (the previous entry as it is) / derived (computed from the previous entry) / other"""
+        if isinstance(node, ast.IfExp):
+            return classify(None, node.body, attr) | classify(None, node.orelse, attr)
+        if (isinstance(v, Const) and v.v is None) or (isinstance(node, ast.Constant) and node.value is None):
+            return {"none"}
+        if (isinstance(v, ListV) and v.fresh and not v.items) or (isinstance(node, (ast.List, ast.Tuple)) and not node.elts):
+            return {"empty"}
+        if isinstance(v, Unk) and _re.search(r"\." + _re.escape(attr) + r"\[\w+ - 1\]$", v.tag):
+            return {"prev"}
+        if isinstance(node, ast.Subscript) and not isinstance(node.slice, ast.Slice) and isinstance(node.value, (ast.Name, ast.Attribute)) \
+                and not any(isinstance(n, (ast.Call, ast.Subscript)) for n in ast.walk(node.slice)):
+            return {"prev"}   # one entry of a record list, taken as it is (which index is R18.1's business)
+        if (isinstance(v, Unk) and _re.search(r"\[\w+ - 1\]", v.tag)) or (node is not None and any(
+                isinstance(n, ast.BinOp) and isinstance(n.op, ast.Sub) and isinstance(n.right, ast.Constant) and n.right.value == 1 for n in ast.walk(node))):
+            return {"derived"}
+        return {"other"}
+    for (cls, attr), evs in sorted(groups.items()):
+        kinds = [(e, classify(e.args[1], e.argnodes[1] if e.argnodes and len(e.argnodes) > 1 else None, attr)) for e in evs]
+        has_none = any("none" in k for _e, k in kinds)
+        ctx.instance(f"{cls}:inserted-id-record:{attr}", sample={"kinds": sorted({x for _e, k in kinds for x in k})})
+        for e, k in kinds:
+            if "other" in k or ("derived" in k and has_none):
+                v = e.args[1]
+                ctx.violation(f"{e.func.qualname}:inserted:{attr}", e.loc,
+                              f"the entry inserted into {cls}.{attr} is `{repr(v)[-70:]}`" + (": it is derived from the previous entry by an operation, but the entry inserted for step 0 is None "
+                              "-- inserting step 1 after step 0 then raises in the middle of the edit, leaving the logs with different lengths" if "derived" in k else
+                              " (expected the previous entry, or None / [] at step 0)"))
     ctx.end()
     ctx.begin("R18.4", "project-level insert filters steps that are already absence steps before fan-out", floor=1)
     f = ctx.repo.method(PROJECT, "insert_absence_time_list")
